@@ -198,6 +198,13 @@ func solveAll(jobs []solveJob, timeout time.Duration, par int, all bool) {
 				o.Result, o.Solver = "unsat", "syntactic"
 				return
 			}
+			if o.RawQuery != "" {
+				f := filepath.Join(j.dir, sanitize(o.Name)+".smt2")
+				os.WriteFile(f, []byte(o.RawQuery), 0o644)
+				rs := solveQuery(f, timeout, false)
+				o.Result, o.Solver, o.Ms, o.Query = rs[0].result, rs[0].solver, rs[0].ms, o.RawQuery
+				return
+			}
 			if !o.Cover {
 				// first attempt: only the assumptions near the goal (a subset, so unsat is still a proof)
 				qf := j.x.queryForDepth(o, false, 2)
